@@ -16,6 +16,8 @@ type Sort struct {
 	Idx, Elem *Sort
 	// for datatypes: constructor and selectors
 	DT *Datatype
+	BV int // bit-vector width (bv mode)
+	FP int // 32 / 64: IEEE float (bv mode)
 }
 
 type Datatype struct {
@@ -743,6 +745,7 @@ func (ts *TermStore) rebuild(t *Term, args []*Term, pats [][]*Term) *Term {
 	return ts.intern(&Term{Op: t.Op, Name: t.Name, Args: args, Sort: t.Sort, Int: t.Int})
 }
 
+
 // ---------------------------------------------------------------------------
 // Printing
 
@@ -809,8 +812,19 @@ func (ts *TermStore) print(sb *strings.Builder, t *Term, names map[int]string, d
 		} else {
 			sb.WriteString(t.Int.String())
 		}
-	case "real":
+	case "real", "rawlit":
 		sb.WriteString(t.Name)
+	case "raw":
+		if len(t.Args) == 0 {
+			sb.WriteString("(" + t.Name + ")")
+			return
+		}
+		sb.WriteString("(" + t.Name)
+		for _, a := range t.Args {
+			sb.WriteByte(' ')
+			ts.print(sb, a, names, depth+1)
+		}
+		sb.WriteString(")")
 	case "forall", "exists":
 		sb.WriteString("(" + t.Op + " (")
 		for _, b := range t.Bound {
@@ -1051,21 +1065,56 @@ type QueryOpts struct {
 
 // datatype declaration order matters (a datatype must be declared after the ones it uses);
 // NewDatatype appends in creation order and creation is bottom-up.
+var dtCache = map[string]*Sort{}
+
+// datatype sorts are global objects (several term stores may be alive: math mode and bv mode); each store
+// declares the ones it uses
 func (ts *TermStore) NewDatatype(name string, fields []DTField) *Sort {
-	s := &Sort{Name: name}
-	s.DT = &Datatype{Name: name, Ctor: "mk~" + name, Fields: fields}
+	s, ok := dtCache[name]
+	if ok {
+		same := len(s.DT.Fields) == len(fields)
+		for i := 0; same && i < len(fields); i++ {
+			same = s.DT.Fields[i].Sort == fields[i].Sort
+		}
+		if !same {
+			// e.g. the bit-vector variant of a struct with integer fields
+			name = name + "~bv"
+			if s2, ok2 := dtCache[name]; ok2 {
+				s = s2
+			} else {
+				s = nil
+			}
+		}
+	}
+	if s == nil {
+		s = &Sort{Name: name}
+		s.DT = &Datatype{Name: name, Ctor: "mk~" + name, Fields: fields}
+		dtCache[name] = s
+	}
+	for _, d := range ts.DTs {
+		if d == s {
+			return s
+		}
+	}
 	ts.DTs = append(ts.DTs, s)
 	return s
 }
 
+var uSortCache = map[string]*Sort{}
+
 func (ts *TermStore) NewUSort(name string) *Sort {
+	s, ok := uSortCache[name]
+	if !ok {
+		s = &Sort{Name: name}
+		uSortCache[name] = s
+	}
 	for _, u := range ts.USorts {
 		if u == name {
-			panic("dup usort " + name)
+			return s
 		}
 	}
 	ts.USorts = append(ts.USorts, name)
-	return &Sort{Name: name}
+	return s
 }
 
 func (ts *TermStore) AddAxiom(symbol string, ax *Term) {
